@@ -70,6 +70,11 @@ def gen_case(rng):
                 for lab, vals in LABELS.items():
                     if rng.random() < 0.7:
                         labels[lab] = rng.choice(vals)
+                if rng.random() < 0.08:
+                    # labels are arbitrary: also names that look internal
+                    labels[rng.choice(['_result', '_test_name', 'index',
+                                       'OK', 'total'])] = rng.choice(
+                                           ['0', '1', 'x'])
                 name = rng.choice([f't{i}_{j}', 'same', f'n{j}'])
                 verdict = True if all_ok else rng.random() < 0.6
                 results.append(make_result(rng, name, verdict, labels))
@@ -97,7 +102,11 @@ def run_case(seed, idx, rec):
 
     # 1. task statuses
     try:
-        res = vst.TestStatsTasks(name='ts', task_results=tasks).evaluate()
+        test = vst.TestStatsTasks(name='ts', task_results=tasks)
+        res = test.evaluate()
+        if idx % 2:
+            res = test.evaluate()       # the same object evaluated again
+            rec.count('second_evaluations_checked')
         classify = {k: list(v) for k, v in res.classify.items() if v}
         verdict = bool(res)
     except Exception as err:  # pylint: disable=broad-except
@@ -128,7 +137,11 @@ def run_case(seed, idx, rec):
                    for r in entry.get('result', [])]
     missing = [tname for tname, entry in tasks if 'result' not in entry]
     try:
-        res = vst.TestStatsTests(name='tt', task_results=tasks).evaluate()
+        test = vst.TestStatsTests(name='tt', task_results=tasks)
+        res = test.evaluate()
+        if idx % 2:
+            res = test.evaluate()
+            rec.count('second_evaluations_checked')
         classify = {k: list(v) for k, v in res.classify.items() if v}
         verdict = bool(res)
     except Exception as err:  # pylint: disable=broad-except
